@@ -428,6 +428,13 @@ class CallMixin:
     def apply_contract(self, st, c, args, kwargs, k, where, fi=None):
         bound = self.bind_contract_args(c, args, kwargs, where, fi)
         st, bound = self.check_arg_kinds(st, c, bound, where)
+        # ghost parameters of the callee are universally quantified in its contract: instantiate them with the
+        # caller's ghost of the same name if there is one, else with an arbitrary fresh value
+        for gname, gkind in c.ghost.items():
+            if gname in st.ghost and not gname.startswith("$"):
+                bound[gname] = st.ghost[gname]
+            else:
+                bound[gname] = self.fresh_value(st, gkind, "ginst_" + gname)
         self.used_contracts.add(c.qualname)
         pre_st = st
         env = SpecEnv(st, dict(bound))
@@ -509,6 +516,11 @@ class CallMixin:
                 g2 = g if it[3] is None else And(g, it[3])
                 out.append((it[0], it[1], it[2], g2))
             return out
+        if loc.startswith("*deque:") or loc.startswith("*list:"):
+            what, kind = loc[1:].split(":", 1)
+            return [("seq*", what, parse_kind(kind), None)]
+        if loc.startswith("*dict:"):
+            return [("dict*", parse_kind(loc[6:]), None, None)]
         if loc.startswith("*"):
             cls, fld = loc[1:].rsplit(".", 1)
             return [("field*", cls, fld, None)]
@@ -567,11 +579,25 @@ class CallMixin:
                 kind = item[0]
                 if kind == "field*":
                     st = self.havoc_whole_field(st, item[1], item[2])
+                elif kind == "seq*":
+                    key, sort = self._seq_key(item[2], item[1])
+                    st = st.copy()
+                    self.heap_array(st, key, INT, sort)
+                    from .smt import arr
+                    st.heap[key] = self.arbitrary(arr(INT, sort), "hvallseq")
+                elif kind == "dict*":
+                    dk = item[1]
+                    ks, dom, vals = self._dict_keys(VDict(I(0), dk.k, dk.v))
+                    st = st.copy()
+                    from .smt import arr
+                    for key, so in [(dom, BOOL)] + vals:
+                        self.heap_array(st, key, INT, arr(ks, so))
+                        st.heap[key] = self.arbitrary(arr(INT, arr(ks, so)), "hvalldict")
                 elif kind == "field":
                     st = self.havoc_field(st, item[1].t, item[1].cls, item[2])
                 elif kind in ("list", "deque"):
                     c = item[1]
-                    key, sort = self._seq_key(c.elem)
+                    key, sort = self._seq_key(c.elem, c)
                     st = self.set_seq_items(st, c, self.arbitrary(sort, "hvseq"))
                 elif kind == "dict":
                     d = item[1]
